@@ -375,6 +375,37 @@ func evalC09(c *Ctx, cs *Case) {
 				c.Violation(cs, "dryrun.does-not-predict-real-run", "same-tree", det)
 			}
 		}
+		// --- (e) one document with TWO root blocks of the same name (a tree written in two pieces):
+		// the dry run accepts it, so the real run must, and it makes the union of both blocks
+		if len(f) >= 2 && !hostile && ei == extIdx[0] && cs.Idx%3 == 1 {
+			a, b := f[0].Clone(), f[1].Clone()
+			b.Name = a.Name
+			two := model.Forest{a, b}
+			ddoc := gen.Spell(two, gen.Canonical)
+			dry := OutputMD(ddoc, gtree.WithDryRun())
+			union := a.Clone()
+			union.Kids = append(union.Kids, b.Clone().Kids...)
+			if j, err := mon.NewJail(c.TmpDir, true); err == nil {
+				before := j.Snap()
+				ro := mkdirCall(mkdirRoutes[0], ddoc, nil, fsOpts(j.Target, nil, false, false, false, false))
+				diff := mon.Diff(before, j.Snap())
+				j.Remove()
+				want := expectedCreated(model.Merge(model.Forest{union}), nil, j.Rel)
+				cs.Entry = "MkdirFromMarkdown[real, two root blocks of one name]"
+				c.Eval(gen.HashString(fkey+"\x00tworoots"), true)
+				c.Count("documents_with_two_root_blocks_of_one_name", 1)
+				det := map[string]any{"doc": ddoc, "dry_err": errStr(dry.Err), "real_err": errStr(ro.Err), "real_created": diff, "want_created": want}
+				switch {
+				case dry.Panic != nil || ro.Panic != nil:
+					c.Violation(cs, "panic", "two-root-blocks", det)
+				case (dry.Err == nil) != !nameReject(ro.Err) || (dry.Err == nil && ro.Err != nil):
+					c.Violation(cs, "dryrun.accept-differs-from-real", "two-root-blocks", det)
+				case dry.Err == nil && !sameStrings(diff, want):
+					c.Violation(cs, "dryrun.does-not-predict-real-run", "two-root-blocks", det)
+				}
+				cs.Entry = ""
+			}
+		}
 		// stray dry-run option on Verify and Walk: no filesystem effect
 		{
 			j, err := mon.NewJail(c.TmpDir, true)
